@@ -297,8 +297,8 @@ func (g *gen) counterStyleGraph() refPiece {
 		}
 		p.body = append(p.body, l)
 	}
-	if !list || r.Bool() {
-		p.body = append(p.body, el(vlib.Pick(r, []string{"p", "div"}), nil, txt(g.text()), el("span", nil, txt("x"))), el("p", nil, txt("y")))
+	if !list || r.Chance(2, 3) { // elements matched by the other users (p / div / span / h2, ::before / ::after)
+		p.body = append(p.body, el("div", nil, txt(g.word()+" "), el("span", nil, txt("x"))), el("p", nil, txt("y")), el("h2", nil, txt("z")))
 	}
 	return p
 }
